@@ -76,3 +76,88 @@ package engine
 //@   ensures [C05.v.hookonly]  calls(allowRequest) == 1 ==> !tBad && !oBad && !hasSid && method == "GET"
 //@   ensures [C05.v.admit]     result0 == nil ==> !tBad && !oBad && (hasSid ==> known)
 //@   ensures [C05.v.codes]     result0 == nil || result0 == UNKNOWN_TRANSPORT || result0 == BAD_REQUEST || result0 == UNKNOWN_SID || result0 == BAD_HANDSHAKE_METHOD || result0 == FORBIDDEN
+
+//@ func BaseServer.Opts()
+//@   opt stable
+//@   noeffect
+//@   ensures result != nil   // set by Construct
+//@ func BaseServer.Upgrades(transport)
+//@   opt stable
+//@   noeffect
+
+// ---- session (engine/socket.go) --------------------------------------------------------------------------
+// sockOK: what MakeSocket establishes; sockLive: what holds from Construct on (a transport is attached and the
+// heartbeat mode of the session agrees with the protocol revision of its transport).
+//@ spec sockOK(s *socket) bool = s != nil && s.EventEmitter != nil && s.writeBuffer != nil && s.packetsFn != nil && s.sentCallbackFn != nil && s.cleanupFn != nil
+//@ spec sockLive(s *socket) bool = sockOK(s) && s.server != nil && s.Transport() != nil
+// Thin contracts used at call sites; each function is verified against its own clauses below.
+
+//@ func (*socket).onError(err)
+//@   modifies *
+//@ func (*socket).OnClose(reason, description)
+//@   props C03, C07, C18, C12
+//@   requires sockLive(s)
+//@   modifies *
+//@   let wasClosed = old(s.ReadyState()) == "closed"
+//@   ensures [C03.once]        wasClosed ==> nevents() == 0
+//@   ensures [C03.oneclose]    !wasClosed ==> emitted(s.EventEmitter, "close") == 1
+//@   ensures [C03.timers,C07.cleared] !wasClosed ==> calls(utils.ClearTimeout) >= 2
+//@   ensures [C18.dropped]     !wasClosed ==> calls((*types.Slice).Clear) >= 2
+//@   callsite EventEmitter.Emit#1
+//@     assert [C03.closedfirst] s.ReadyState() == "closed" && $evt == "close" && len($args) == 2 && $args[0] == iface(reason)
+//@   callsite (*socket).clearTransport#1
+//@     assert [C03.closedbeforeclear] s.ReadyState() == "closed"
+
+//@ func (*socket).clearTransport()
+//@   modifies *
+//@ func (*socket).closeTransport(discard)
+//@   modifies *
+//@ func (*socket).setTransport(transport)
+//@   modifies *
+//@ func (*socket).flush()
+//@   modifies *
+//@ func (*socket).resetPingTimeout()
+//@   modifies *
+//@ func (*socket).schedulePing()
+//@   modifies *
+
+//@ func (*socket).resetPingTimeoutDuration()
+//@   props C07
+//@   requires s != nil && s.server != nil
+//@   modifies nothing
+//@   ensures [C07.duration] result == (s.protocol == 3 ? s.server.Opts().PingInterval() + s.server.Opts().PingTimeout() : s.server.Opts().PingTimeout())
+
+//@ func (*socket).sendPacket(packetType, data, options, callback)
+//@   props C01, C03, C18
+//@   requires sockLive(s)
+//@   modifies *
+//@   let rs = old(s.ReadyState())
+//@   ensures [C03.sendafterclose,C01.discard] rs == "closing" || rs == "closed" ==> nevents() == 0
+//@   ensures [C01.accept] rs != "closing" && rs != "closed" ==> calls((*types.Slice).Push) >= 1 && emitted(s.EventEmitter, "packetCreate") == 1 && calls((*socket).flush) == 1
+//@   ensures [C18.packetCreateFirst] rs != "closing" && rs != "closed" ==> before(EventEmitter.Emit, 1, (*types.Slice).Push, 1) && before((*types.Slice).Push, 1, (*socket).flush, 1)
+//@   callsite (*types.Slice).Push#1
+//@     assert [C01.tailpush] $s == s.writeBuffer && len($elements) == 1 && $elements[0].Type == packetType && $elements[0].Data == data && $elements[0].Options != nil
+//@     assert [C01.defaultopts] options == nil ==> $elements[0].Options.Compress
+//@     assert [C01.keepopts] options != nil ==> $elements[0].Options == options
+//@   callsite (*types.Slice).Push#2
+//@     assert [C18.cbpush] $s == s.packetsFn && callback != nil && len($elements) == 1
+
+//@ func (*socket).onPacket(data)
+//@   props C07, C02, C03
+//@   requires sockLive(s) && data != nil
+//@   requires s.protocol == 3 ==> s.pingTimeoutTimer.v != nil
+//@   requires s.protocol != 3 ==> s.pingIntervalTimer.v != nil
+//@   requires s.protocol == s.Transport().Protocol()
+//@   modifies *
+//@   let open = old(s.ReadyState()) == "open"
+//@   let v3   = old(s.protocol) == 3
+//@   let ptype = old(data.Type)
+//@   ensures [C03.silent,C02.notopen] !open ==> nevents() == 0
+//@   ensures [C02.packetevt]  open ==> emitted(s.EventEmitter, "packet") == 1
+//@   ensures [C07.v3ping]     open && ptype == packet.PING && v3 ==> calls((*utils.Timer).Refresh) == 1 && calls((*socket).sendPacket) == 1 && arg((*socket).sendPacket, 1, packetType) == packet.PONG && emitted(s.EventEmitter, "heartbeat") == 1 && calls((*socket).onError) == 0
+//@   ensures [C07.v4pingwrong] open && ptype == packet.PING && !v3 ==> calls((*socket).onError) == 1 && nevents() == 2
+//@   ensures [C07.v4pong]     open && ptype == packet.PONG && !v3 ==> calls(utils.ClearTimeout) == 1 && calls((*utils.Timer).Refresh) == 1 && before(utils.ClearTimeout, 1, (*utils.Timer).Refresh, 1) && emitted(s.EventEmitter, "heartbeat") == 1 && calls((*socket).onError) == 0 && calls((*socket).sendPacket) == 0
+//@   ensures [C07.v3pongwrong] open && ptype == packet.PONG && v3 ==> calls((*socket).onError) == 1 && nevents() == 2
+//@   ensures [C02.message]    open && ptype == packet.MESSAGE ==> emitted(s.EventEmitter, "data") == 1 && emitted(s.EventEmitter, "message") == 1 && nevents() == 3
+//@   ensures [C02.parseerror,C03.parse] open && ptype == packet.ERROR ==> calls((*socket).OnClose) == 1 && arg((*socket).OnClose, 1, reason) == "parse error"
+//@   ensures [C02.onlymessage] ptype != packet.MESSAGE ==> emitted(s.EventEmitter, "message") == 0 && emitted(s.EventEmitter, "data") == 0
